@@ -2,6 +2,7 @@ package main
 
 import (
 	"encoding/json"
+	"fmt"
 	"os"
 	"path/filepath"
 	"strings"
@@ -83,7 +84,7 @@ func cloneScenario(sc *Scenario) *Scenario {
 }
 
 func minimise(p *Prop, sc *Scenario, v Violation) (*Scenario, Violation, bool) {
-	if p.Shrink == nil {
+	if p.Shrink == nil && p.ShrinkLazy == nil {
 		return sc, v, false
 	}
 	cur, curV := sc, v
@@ -91,31 +92,47 @@ func minimise(p *Prop, sc *Scenario, v Violation) (*Scenario, Violation, bool) {
 	deadline := time.Now().Add(25 * time.Second)
 	run := func(c *Scenario) []Violation { return safeRun(p, c) }
 	if p.Race {
+		budget = 900
+		deadline = time.Now().Add(75 * time.Second)
+	}
+	if p.Race && v.Kind == "data-race" {
 		// detector reports are de-duplicated per process: evaluate candidates in fresh processes
 		budget = 60
 		deadline = time.Now().Add(60 * time.Second)
 		run = runInSubprocess
 	}
 	changed := false
+	dbg := os.Getenv("VERIF_SHRINK_DEBUG") != ""
 	for budget > 0 && time.Now().Before(deadline) {
 		progress := false
-		for _, cand := range p.Shrink(cur) {
+		tried := 0
+		try := func(cand *Scenario) bool {
 			if budget <= 0 || time.Now().After(deadline) {
-				break
+				return true // stop enumerating
 			}
 			budget--
-			vs := run(cand)
-			for _, nv := range vs {
+			tried++
+			for _, nv := range run(cand) {
 				if nv.Kind == curV.Kind {
 					cur, curV = cand, nv
 					progress = true
 					changed = true
+					return true
+				}
+			}
+			return false
+		}
+		if p.ShrinkLazy != nil {
+			p.ShrinkLazy(cur, try)
+		} else {
+			for _, cand := range p.Shrink(cur) {
+				if try(cand) {
 					break
 				}
 			}
-			if progress {
-				break
-			}
+		}
+		if dbg {
+			fmt.Fprintf(os.Stderr, "shrink: tried %d, progress=%v, budget %d, %v left\n", tried, progress, budget, time.Until(deadline).Round(time.Second))
 		}
 		if !progress {
 			break
